@@ -54,7 +54,7 @@ ARRAYS = {
     "arr_3x1": ("float", [["a"], ["L"], ["b"]]),
 }
 WHOLE = {"whole_2x2": ("float", 2, 2, True), "whole_1x3": ("complex", 1, 3, True), "whole_3x2_unindented": ("float", 3, 2, False)}
-USES = ["none", "arg", "kwarg", "idx"]
+USES = ["none", "arg", "kwarg", "idx", "loop_arg", "loop_kwarg", "loop_idx", "loop_both"]
 
 
 class Sub(dict):
@@ -112,6 +112,15 @@ def _use(use, sub):
         return ["Gate(%s, U=A) | %s" % (sub["f"], sub["m"])]
     if use == "idx":
         return ["Dgate(A[1], A[0]) | %s" % sub["m"]]
+    # the array inside a for-loop body (the loop is unrolled at load time; the instance must still see the values)
+    if use == "loop_arg":
+        return ["for int i in 0:2", "    Gate(A) | i"]
+    if use == "loop_kwarg":
+        return ["for int i in [1, 4]", "    Gate(%s, U=A) | [i, %s]" % (sub["f"], sub["m"])]
+    if use == "loop_idx":
+        return ["for int i in 0:2", "    Dgate(A[i], k=A[0]) | i"]
+    if use == "loop_both":
+        return ["Gate(A) | %s" % sub["m"], "for int i in [2, 3]", "    Gate(i, A) | i", "Gate(A) | %s" % sub["m"]]
     return ["Vac | %s" % sub["m"]]
 
 
@@ -126,7 +135,7 @@ def gen_specs(tier, seed):
         for use in USES:
             specs.append(("array", nm, use))
     for nm in WHOLE:
-        for use in ("none", "arg", "idx"):
+        for use in ("none", "arg", "idx", "loop_arg", "loop_kwarg", "loop_idx", "loop_both"):
             specs.append(("whole", nm, use))
     return specs
 
